@@ -1,6 +1,7 @@
 import UF.Driver.Decode
 import UF.Model.Match
 import UF.Spec.CosmeticOption
+import UF.Model.Result
 /-
   Ops owned by the core: `match` (model of NetworkRule.Match, C04), `cosopt` (C16), `assert`.
   Every handler returns "<model> <spec>" ("-" when the op has no separate executable spec).
@@ -25,19 +26,28 @@ def cosModOfName : String → Option CosMod
 /-- `cosopt <R|_> (<modifier names>)`: model = GetCosmeticOption on the parsed rule's bits and the
     decoded flags; spec = reference computed from the modifier *names* of the rule text. -/
 def opCosopt (args : List W) : String :=
-  match args with
-  | [r, .l names] =>
-    let basic : Option (Option NetRule) := if r.isNone then some none else (decNetRule r).map some
+  let go (r : W) (names : List W) (src : Option (List W)) : String :=
+    let basic0 : Option (Option NetRule) := if r.isNone then some none else (decNetRule r).map some
     let mods := names.mapM fun w => match w with | .a s => cosModOfName s | _ => none
-    match basic, mods with
-    | some basic, some mods =>
+    let srcRules : Option (List NetRule) := match src with
+      | none => some []
+      | some ws => ws.mapM decNetRule
+    match basic0, mods, srcRules with
+    | some basic0, some mods, some srcRules =>
+      -- with referrer rules the basic rule is what NewMatchingResult selects (model of group C)
+      let basic := match src with
+        | none => basic0
+        | some _ => (newMatchingResult basic0.toList srcRules).basicRule
       let o := getCosmeticOption basic
       let (c, j, g) := decodeCosmeticFlags o
-      let exc := match basic with | some r => r.whitelist | none => false
+      let exc := match basic0 with | some r => r.whitelist | none => false
       let s := specCosmeticOption exc mods
       let (sc, sj, sg) := decodeCosmeticFlags s
       s!"{o.toNat}:{outBool c}{outBool j}{outBool g} {s.toNat}:{outBool sc}{outBool sj}{outBool sg}"
-    | _, _ => "bad-decode"
+    | _, _, _ => "bad-decode"
+  match args with
+  | [r, .l names] => go r names none
+  | [r, .l names, .l src] => go r names (some src)
   | _ => "bad-arity"
 
 def dispatchCore (op : String) (args : List W) : Option String :=
